@@ -1,7 +1,7 @@
 (* Correspondence cases for C09: write histories on one relation and
    write_database runs, observed through the directory listing and reads. *)
 From Coq Require Import List NArith ZArith Bool.
-From PyD Require Export Base.Str Model.Tsdb Model.TsdbFiles Model.TsdbDb Corr.Common.
+From PyD Require Export Base.Str Model.Tsdb Model.TsdbFiles Model.TsdbDb Model.TsdbRead Corr.Common.
 Import ListNotations.
 
 Definition raw_eqb' : raw -> raw -> bool := option_eqb str_eqb.
@@ -45,7 +45,20 @@ Inductive case :=
 | CWrites (fields : list field) (init : rel str) (ops : list wop) (obs : list (N * obsrel))
 | CWdb (src_schema : schema) (src dst : files) (inplace : bool) (names : option (list str))
        (new_schema : option schema) (gzip : bool)
-       (ok : bool) (obs : list (str * obsrel)).
+       (ok : bool) (obs : list (str * obsrel))
+(* the read interfaces of Database on a relation holding the given lines: raw records, cast
+   records, selected columns raw and cast; None = the implementation raised *)
+| CRead (fields : list field) (lines : list str) (cols : list str)
+        (r_raw : option (list (list raw))) (r_cast : option (list (list value)))
+        (r_sel : option (list (list raw))) (r_selc : option (list (list value))).
+
+Definition value_eqb' (a b : value) : bool :=
+  match a, b with
+  | VNone, VNone => true
+  | VInt x, VInt y => Z.eqb x y
+  | VStr x, VStr y => str_eqb x y
+  | _, _ => false
+  end.
 
 Definition check_case (c : case) : bool :=
   match c with
@@ -55,4 +68,10 @@ Definition check_case (c : case) : bool :=
       let fs := match r with DOk fs => fs | DErr fs => fs end in
       Bool.eqb (match r with DOk _ => true | DErr _ => false end) ok &&
       forallb (fun p => obsrel_eqb (observe_rel (get_rel fs (fst p))) (snd p)) obs
+  | CRead fields lines cols r_raw r_cast r_sel r_selc =>
+      option_eqb (list_eqb (list_eqb raw_eqb')) (read_raw lines) r_raw &&
+      option_eqb (list_eqb (list_eqb value_eqb')) (read_cast fields lines) r_cast &&
+      option_eqb (list_eqb (list_eqb raw_eqb')) (select_raw fields cols lines) r_sel &&
+      option_eqb (list_eqb (list_eqb value_eqb')) (select_cast fields cols lines) r_selc
   end.
+
